@@ -151,7 +151,9 @@ func (c *BlobMemoryCache) TryReserve(size uint64) bool {
 	c.mu.Lock()
 	defer c.mu.Unlock()
 
-	if c.totalSize+size > c.config.MaxSize {
+	// Overflow-safe form of totalSize+size > MaxSize: the sum wraps around for
+	// sizes close to 2^64 (e.g. a negative backend size converted to uint64).
+	if size > c.config.MaxSize || c.totalSize > c.config.MaxSize-size {
 		c.stats.Counter("reserve_failure").Inc(1)
 		return false
 	}
